@@ -229,6 +229,8 @@ pub struct Model<'a> {
 }
 
 const STEP_CAP: u64 = 20_000;
+/// early-stop reason of a run that was killed at a crash point (the crash checks follow)
+pub const KILLED: &str = "run was killed at a crash point";
 const MAX_DEPTH: usize = 40;
 
 impl<'a> Model<'a> {
@@ -333,13 +335,99 @@ impl<'a> Model<'a> {
         match r {
             Ok(()) => {}
             Err(Stop::Diverged(d)) => self.report.divergence = Some(d),
-            Err(Stop::Early(why)) => self.report.stopped_early = Some(why),
+            Err(Stop::Early(why)) => {
+                if why == KILLED {
+                    self.probe("killed_at_crash_point");
+                    if let Err(Stop::Diverged(d)) = self.crash_checks() {
+                        self.report.divergence = Some(d);
+                    }
+                }
+                self.report.stopped_early = Some(why)
+            }
             Err(Stop::Flow(f)) => {
                 self.report.stopped_early = Some(format!("model left in flow {:?}", f));
             }
         }
         let store = self.store.clone();
         (self.report, store)
+    }
+
+    /// The run was killed (a crash: no CLOSE, no drop, no flush ran afterwards). Every
+    /// statement before the one under way was matched completely, so the store that
+    /// survives must hold, for every file that statement does not touch, exactly the bytes
+    /// of the completed statements: a file that was closed before the crash point keeps all
+    /// of its content, and no file holds bytes that were never written. RANDOM files are
+    /// judged through GET only.
+    fn crash_checks(&mut self) -> R<()> {
+        let actual = self.w.fs.snapshot();
+        let mut loose: std::collections::BTreeSet<String> = Default::default();
+        if let Some((id, _, _)) = self.last_simple {
+            let mut kind: Option<&StmtKind> = None;
+            self.sc.for_each(&mut |st| {
+                if st.id == id {
+                    kind = Some(&st.kind);
+                }
+            });
+            match kind {
+                Some(StmtKind::Open { name, .. }) | Some(StmtKind::Kill(name)) => {
+                    loose.insert(name.clone());
+                }
+                Some(StmtKind::NameAs(a, b)) => {
+                    loose.insert(a.clone());
+                    loose.insert(b.clone());
+                }
+                Some(StmtKind::Print {
+                    dev: Dev::File(h), ..
+                })
+                | Some(StmtKind::Put { handle: h, .. }) => {
+                    if let Some(hd) = self.handles.get(h) {
+                        loose.insert(hd.name.clone());
+                    }
+                }
+                _ => {}
+            }
+        }
+        let names: std::collections::BTreeSet<&String> =
+            actual.keys().chain(self.store.keys()).collect();
+        let mut detail = None;
+        let mut closed_checked = 0u64;
+        let mut open_checked = 0u64;
+        for n in names {
+            if self.random_names.contains(n) || loose.contains(n) {
+                continue;
+            }
+            let is_open_for_writing = self
+                .handles
+                .values()
+                .any(|h| &h.name == n && (h.mode == Mode::Output || h.mode == Mode::Append));
+            if is_open_for_writing {
+                open_checked += 1;
+            } else {
+                closed_checked += 1;
+            }
+            let a = actual.get(n);
+            let m = self.store.get(n);
+            if a != m && detail.is_none() {
+                detail = Some(format!(
+                    "after a crash at instruction {} file {:?} ({}) holds {:?}; the statements completed before the crash point wrote {:?}",
+                    self.w.instr,
+                    n,
+                    if is_open_for_writing {
+                        "open for writing, not touched by the statement under way"
+                    } else {
+                        "not open for writing at the crash point"
+                    },
+                    a.map(|x| String::from_utf8_lossy(x).to_string()),
+                    m.map(|x| String::from_utf8_lossy(x).to_string())
+                ));
+            }
+        }
+        *self.report.probes.entry("crash_files_not_open_for_writing_checked").or_insert(0) += closed_checked;
+        *self.report.probes.entry("crash_files_open_for_writing_checked").or_insert(0) += open_checked;
+        match detail {
+            Some(d) => self.diverge(Class::FileData, self.last_simple.map(|x| x.0), d),
+            None => Ok(()),
+        }
     }
 
     fn run_main(&mut self) -> R<()> {
@@ -396,6 +484,7 @@ impl<'a> Model<'a> {
     fn expect_outcome_ok(&mut self) -> R<()> {
         match self.outcome {
             Outcome::Ok => self.final_checks(),
+            Outcome::Killed => Err(Stop::Early(KILLED.into())),
             Outcome::Budget => self.diverge(
                 Class::Liveness,
                 None,
@@ -495,6 +584,7 @@ impl<'a> Model<'a> {
                 Ok(())
             }
             Outcome::Panic { .. } => Ok(()),
+            Outcome::Killed => Err(Stop::Early(KILLED.into())),
             Outcome::Budget => self.diverge(
                 Class::Liveness,
                 Some(stmt),
@@ -659,6 +749,9 @@ impl<'a> Model<'a> {
             (c, None) => {
                 // no error observed: either the outcome is an internal failure (reported
                 // elsewhere) or the implementation went on as if nothing had happened
+                if matches!(self.outcome, Outcome::Killed) {
+                    return Err(Stop::Early(KILLED.into()));
+                }
                 if matches!(self.outcome, Outcome::Panic { .. } | Outcome::Budget) {
                     return Err(Stop::Early(
                         "run ended abnormally before the expected error".into(),
@@ -834,6 +927,9 @@ impl<'a> Model<'a> {
             None => {
                 if matches!(self.outcome, Outcome::Panic { .. }) {
                     return Err(Stop::Early("run ended in an internal failure".into()));
+                }
+                if matches!(self.outcome, Outcome::Killed) {
+                    return Err(Stop::Early(KILLED.into()));
                 }
                 if matches!(self.outcome, Outcome::Budget) {
                     return Err(Stop::Early("run exhausted its budget".into()));
@@ -1615,6 +1711,11 @@ impl<'a> Model<'a> {
                 Ok(())
             }
             None => {
+                if matches!(self.outcome, Outcome::Killed)
+                    && seg.alts.iter().all(|a| rest.len() < a.len())
+                {
+                    return Err(Stop::Early(KILLED.into()));
+                }
                 if matches!(self.outcome, Outcome::Budget | Outcome::Panic { .. })
                     && seg.alts.iter().all(|a| rest.len() < a.len())
                 {
@@ -2237,6 +2338,9 @@ impl<'a> Model<'a> {
                 );
             }
             None => {
+                if matches!(self.outcome, Outcome::Killed) {
+                    return Err(Stop::Early(KILLED.into()));
+                }
                 if matches!(self.outcome, Outcome::Panic { .. } | Outcome::Budget) {
                     return Err(Stop::Early("run ended abnormally".into()));
                 }
